@@ -259,6 +259,12 @@ var templates = []struct {
 	{"ok", "datetime(n1, \"s\", \"RFC3339\")\nprobe(\"d\", n1)\nsql_cover(_)\nprobe(\"q\", message)"},
 	{"ok", "strfmt(s, \"%d|%s\", \"x\", 2)\nprobe(\"s\", s)\nxml(_, \"/a/b\", v)\nprobe(\"v\", v)"},
 	{"ok", "cast(n1, \"int\")\ncast(message, \"bool\")\nprobe(\"c\", n1, message)"},
+	// formatting calls that stop half-way (a later operand fails, or cannot be formatted) and formatting calls that work
+	{"run-error", "l = [1]\nprintf(\"%d %s\\n\", 7, l[5])\nprobe(\"never\")"},
+	{"run-error", "a = [1]\na[0] = a\nstrfmt(k, \"%d %v\", 1, a)"},
+	{"run-error", "l = [1]\nstrfmt(k, \"%s-%s-%d\", \"stale-1\", \"stale-2\", l[5])"},
+	{"ok", "strfmt(out, \"%d|%s\", 7, \"seven\")\nprobe(\"o\", out)\nprintf(\"%v %v\\n\", 1, message)"},
+	{"ok", "strfmt(out, \"%v\", n1)\nstrfmt(out2, \"no operands\")\nprobe(\"o\", out, out2)"},
 	// keys that collide: a rename onto an existing field / tag, a key dropped and made again with another type or kind;
 	// and a reader that uses several keys of different types and kinds in type-sensitive ways
 	{"ok", "add_key(a1, 1)\nadd_key(b1, \"s\")\nrename(b1, a1)\nprobe(\"r\", a1, b1)"},
@@ -540,6 +546,14 @@ func TestManyDistinctArguments(t *testing.T) {
 		}},
 		{"xml-xpath", func(i int) *Op {
 			return run(fmt.Sprintf("xml(_, \"/a/b[%d]\", out)\nprobe(\"x\", out)", i%3+1), fmt.Sprintf("<a><b>one%d</b><b>two</b><b>three</b></a>", i))
+		}},
+		{"xml-same-expression-other-documents", func(i int) *Op {
+			// one expression with a numeric predicate; every second document holds text where the number should be
+			price := fmt.Sprint(10 + i)
+			if i%2 == 0 {
+				price = "n/a"
+			}
+			return run("xml(_, \"//order[price > 10]/id/text()\", out)\nxml(_, \"substring(//id, 3, 1)\", out2)\nprobe(\"x\", out, out2)", fmt.Sprintf("<r><order><price>%s</price><id>id%d</id></order></r>", price, i))
 		}},
 		{"strfmt-format", func(i int) *Op {
 			return run(fmt.Sprintf("strfmt(out, \"%%d-f%d-%%s\", %d, \"s\")\nprobe(\"s\", out)", i, i), "m")
